@@ -25,7 +25,7 @@ from .registry import Job, register
 from .summaries import SUMMARIES
 
 FM = "unit_scaling.formats."
-QUICK_FORMATS = [(4, 3), (5, 2), (2, 1), (3, 0), (5, 10), (8, 23)]
+QUICK_FORMATS = [(4, 3), (5, 2), (2, 1), (3, 0), (5, 10), (8, 23), (8, 7), (4, 23)]
 ALL_FORMATS = [(E, M) for E in range(2, 9) for M in range(0, 24)]
 
 
